@@ -1,6 +1,7 @@
 import PytezosModel.Michelson.Interp.Syntax
 import PytezosModel.Michelson.Collections
 import PytezosModel.Michelson.Arith
+import PytezosModel.Micheline.Lower
 import PytezosModel.Generated.C01
 /-! `Impl.exec` — mirror of the `execute` methods of src/pytezos/michelson/instructions/*.py over the
 `MichelsonStack` of src/pytezos/michelson/stack.py (`items` + `protected` prefix).
@@ -619,6 +620,71 @@ def execTransferTokens (env : Env) (parameter amount destination : Val) : Res Va
     if typeOf parameter = t then .ok (.opTransfer env.self (pySplit s).1 (pySplit s).2 m parameter t) else .stuck
   | _, _ => .stuck
 
+/-! Phase B (first half): `a.pack()` = `b'\x05' + forge_micheline(a.to_micheline_value(mode='optimized'))` -/
+/-- `prim_tags[name]` (the table `forge_micheline` uses, read from the source by property C05's translator) -/
+def primTagOf (name : String) : Option Nat := _root_.Impl.Lower.primTag name
+
+def primNode (name : String) (args : List BMich) : Option BMich := (primTagOf name).map fun t => .prim t args none
+
+/-- the tail of `PairType.to_micheline_value` in mode `optimized`, given `args`: `len(args) == 2` → `Pair`, `== 3` →
+`Pair a (Pair b c)`, `>= 4` → the list itself, else `raise AssertionError` -/
+def pairNode (args : List BMich) : Option BMich :=
+  if args.length = 2 then primNode "Pair" args
+  else if args.length = 3 then
+    match args with
+    | [x, y, z] => (primNode "Pair" [y, z]).bind fun inner => primNode "Pair" [x, inner]
+    | _ => none
+  else if args.length ≥ 4 then some (.seq args)
+  else none
+
+mutual
+  /-- first component: `v.to_micheline_value(mode='optimized')` with the primitives looked up in `prim_tags`; second:
+  `[x.to_micheline_value(…) for x in v.iter_comb()]` if `v` is a pair (what the enclosing pair's `iter_comb` yields for its
+  second item), else the one-element list.  `none`: a class outside the model (or a primitive missing from the table) -/
+  def toMichBoth : Val → Option (BMich × List BMich)
+    | .pair a b =>
+      match toMichBoth a, toMichBoth b with
+      | some x, some y => (pairNode (x.1 :: y.2)).map fun m => (m, x.1 :: y.2)
+      | _, _ => none
+    | .unit => (primNode "Unit" []).map fun m => (m, [m])
+    | .bool b => (primNode (if b then "True" else "False") []).map fun m => (m, [m])
+    | .num _ v => some (.int v, [.int v])
+    | .str s => some (.str s, [.str s])
+    | .bytes b => some (.bytes b, [.bytes b])
+    | .some v => (toMichBoth v).bind fun x => (primNode "Some" [x.1]).map fun m => (m, [m])
+    | .none _ => (primNode "None" []).map fun m => (m, [m])
+    | .left v _ => (toMichBoth v).bind fun x => (primNode "Left" [x.1]).map fun m => (m, [m])
+    | .right _ v => (toMichBoth v).bind fun x => (primNode "Right" [x.1]).map fun m => (m, [m])
+    | .list _ xs => (toMichL xs).map fun ys => (.seq ys, [.seq ys])
+    | .set _ xs => (toMichL xs).map fun ys => (.seq ys, [.seq ys])
+    | .map _ _ xs => (toMichE xs).map fun ys => (.seq ys, [.seq ys])
+    | _ => none
+  def toMichL : List Val → Option (List BMich)
+    | [] => some []
+    | x :: xs =>
+      match toMichBoth x, toMichL xs with
+      | some y, some ys => some (y.1 :: ys)
+      | _, _ => none
+  /-- `[{'prim': 'Elt', 'args': [x.to_micheline_value(…) for x in elt]} for elt in self]` -/
+  def toMichE : List Val → Option (List BMich)
+    | [] => some []
+    | .pair k v :: xs =>
+      match toMichBoth k, toMichBoth v, toMichE xs with
+      | some a, some b, some ys => (primNode "Elt" [a.1, b.1]).map fun e => e :: ys
+      | _, _, _ => none
+    | _ :: _ => none
+end
+
+/-- PACK after `pop1`: `BytesType.from_value(a.pack())`; `forge_micheline` is property C05's mirror `Impl.Forge.forge`
+(an `OverflowError` of `len(data).to_bytes(4, 'big')` is the runtime failure) -/
+def execPack (a : Val) : Res Val :=
+  match toMichBoth a with
+  | none => .stuck
+  | some m =>
+    match _root_.Impl.Forge.forge m.1 with
+    | some bs => .ok (.bytes (5 :: bs))
+    | none => .rtfail
+
 /-- the instructions of extension 2 of the shape `a = stack.pop1(); a.assert_type_…(…); res = …; stack.push(res)`:
 `res` for the popped `a` -/
 def execUn (env : Env) (i : Instr) (a : Val) : Res Val :=
@@ -632,6 +698,7 @@ def execUn (env : Env) (i : Instr) (a : Val) : Res Val :=
   | .CONTRACT t ep => execContract t ep a
   | .SET_DELEGATE => execSetDelegate env a
   | .EMIT tag t => execEmit env tag t a
+  | .PACK => execPack a
   | _ => .stuck
 
 /-- the instructions of extension 2 -/
